@@ -280,6 +280,11 @@ func Expr(n N) string {
 	case "addr":
 		return "&" + sub(node(n["e"]))
 	case "bin":
+		// np ("no parentheses"): the left operand is itself a binary expression whose operator binds at least as tightly: the chain is
+		// written as the grammar groups it anyway, `a + b + c` (the generator only sets np where that holds; the tree self-check confirms it)
+		if l := node(n["l"]); n["np"] == true && str(l, "k") == "bin" {
+			return Expr(l) + " " + str(n, "op") + " " + sub(node(n["r"]))
+		}
 		return sub(node(n["l"])) + " " + str(n, "op") + " " + sub(node(n["r"]))
 	case "un":
 		return str(n, "op") + sub(node(n["e"]))
@@ -601,7 +606,7 @@ func Canon(x interface{}) interface{} {
 		}
 		out := N{}
 		for k, e := range v {
-			if k == "src" {
+			if k == "src" || k == "np" {
 				continue
 			}
 			out[k] = Canon(e)
